@@ -19,10 +19,10 @@ import (
 )
 
 const (
-	vBound      = 10 * time.Minute // virtual-time bound for "must have returned"
-	slowNotice  = 2 * time.Minute  // close notice used around redials that sleep (see assumptions)
-	realWatch   = 90 * time.Second // wall-clock watchdog per vt case: firing = inconclusive
-	fixedTID    = "c18-fixed-transport-id"
+	vBound     = 10 * time.Minute // virtual-time bound for "must have returned"
+	slowNotice = 2 * time.Minute  // close notice used around redials that sleep (see assumptions)
+	realWatch  = 30 * time.Second // wall-clock watchdog per vt case: firing = inconclusive
+	fixedTID   = "c18-fixed-transport-id"
 )
 
 var vtAssumptions = []string{
@@ -33,6 +33,7 @@ var vtAssumptions = []string{
 	"After Close (or exhaustion) Read may still return messages that were buffered before; only blocking, duplicates, reordering and leaked control messages are judged. 'Later' means issued after Close returned / after the budget-th consecutive failed attempt.",
 	"Where the dialer recovers after a loop gave up (exactly budget failures), calls are only required to return (nil or error); where the dialer fails forever they must return an error. Pending Reads are judged only in the latter.",
 	"Virtual-time engine: the library holds its transport mutex while it sleeps between redial attempts, and a goroutine waiting for a sync.Mutex is not durably blocked, so inside a bubble no second goroutine may reach for that mutex during a sleeping redial. The vt workloads keep writers idle and delay the old connection's read-side close notice during such redials; redials that overlap with traffic, and Close during a redial, are sampled by the real-time workload.",
+	"A Read or Write that returns an error in a history with neither Close nor budget consecutive failed redial attempts is reported under the redial clause (the broken connection was given up, not replaced).",
 	"A Write that never returns although neither Close nor budget exhaustion happened is reported under the redial clause (the connection was not effectively replaced).",
 }
 
@@ -56,12 +57,16 @@ type sessCfg struct {
 	Interval  time.Duration `json:"interval"`
 	GivenTID  bool          `json:"given_tid"`
 	InitFails int           `json:"initial_dial_failures,omitempty"`
+	CloseLat  time.Duration `json:"underlying_close_latency,omitempty"`
+	WriteLat  time.Duration `json:"underlying_write_latency,omitempty"`
 }
 
 func openSession(c sessCfg, virt bool) (*session, error) {
 	s := &session{w: newWorld(), budget: c.Budget, virt: virt}
 	s.rec = &recorder{w: s.w, sit: "live"}
 	s.w.budget = c.Budget
+	s.w.closeLatency = c.CloseLat
+	s.w.writeLatency = c.WriteLat
 	s.w.onExhaust = func() { s.rec.setSituation("exhausted") }
 	for i := 0; i < c.InitFails; i++ {
 		s.w.push(dialStep{Err: true})
@@ -175,7 +180,12 @@ func (s *session) finish(desc any, sig string, recoverable bool) vrun.Result {
 			}
 		}
 	}
-	left := bubbleLeftovers()
+	// full goroutine dumps stop the world: sample them; every bubble that ends with goroutines left is detected anyway
+	// (synctest panics in the goroutine that started the bubble, see runBubble)
+	var left []string
+	if censusTick.Add(1)%32 == 0 {
+		left = bubbleLeftovers()
+	}
 
 	var res vrun.Result
 	if len(fs) > 0 {
@@ -209,6 +219,9 @@ func (s *session) finish(desc any, sig string, recoverable bool) vrun.Result {
 	s.stats(&res, sn, ws, rs, final)
 	res.Stat("calls_open_at_bound_write", int64(openW))
 	res.Stat("calls_open_at_bound_read", int64(openR))
+	if left != nil || censusTick.Load()%32 == 0 {
+		res.Stat("bubble_census_taken", 1)
+	}
 	if len(left) > 0 {
 		res.Stat("goroutines_left_in_bubble_after_close", int64(len(left)))
 		res.AddSet("leftover_goroutine_sites", left...)
@@ -268,6 +281,9 @@ func (s *session) stats(res *vrun.Result, sn snapshot, ws []wcall, rs []rcall, f
 	res.AddSet("incarnations_with_accepted_writes", fmt.Sprint(used))
 }
 
+var censusTick atomic.Int64
+var vtStalled atomic.Int32
+
 var bubbleRe = regexp.MustCompile(`synctest bubble (\d+)`)
 
 // bubbleLeftovers lists goroutines of the current bubble other than the caller and the synctest plumbing.
@@ -322,6 +338,10 @@ func runBubble(t *testing.T, f func() vrun.Result) vrun.Result {
 			resCh <- f()
 		})
 	}()
+	watch := realWatch
+	if vtStalled.Load() >= 8 {
+		watch = 3 * time.Second // several bubbles of this process already stalled: short leash, inconclusive either way
+	}
 	select {
 	case res := <-resCh:
 		select {
@@ -334,7 +354,8 @@ func runBubble(t *testing.T, f func() vrun.Result) vrun.Result {
 			res.Note = strings.TrimSpace(res.Note + " bubble did not end within 20 s after the verdict")
 		}
 		return res
-	case <-time.After(realWatch):
+	case <-time.After(watch):
+		vtStalled.Add(1)
 		dump := vrun.AllStacks()
 		if len(dump) > 20000 {
 			dump = dump[:20000]
